@@ -49,6 +49,16 @@ EXCEPTIONS = {
         "runs after rdflib's prepareQuery accepted the text as a query: a SELECT/ASK/CONSTRUCT query always contains '{'",
     "R-SENT|NodeSelectorParser._parse_variable_in_single_variable_query|string_query.find('?')":
         "`find('?') + 1` - callers hand in either a query checked to contain exactly one '?' or the internally built `SELECT ?f ...`",
+    # ------------------------------------------------------------------ R-PLUMB (untyped numbers)
+    "R-PLUMB|infer_numeric_types_for_untyped_literals|NtTriplesYielder.yield_triples->tune_token":
+        "the call without the flag is the subject position (a subject is never a bare number); the object position passes the flag",
+    "R-PLUMB|infer_numeric_types_for_untyped_literals|TsvNtTriplesYielder.yield_triples->tune_token":
+        "subject position relies on the default like the NT reader; the object position hard-codes True - the TSV reader types bare "
+        "numbers whatever the user configured (a deviation between delivery formats, C08 territory, which static analysis does not claim; "
+        "typed numbers still conform to their shapes)",
+    "R-PLUMB|infer_numeric_types_for_untyped_literals|RdflibSgraph.add_triple->tune_token":
+        "the local SGraph only serves shape-map node selection (query_single_variable / class membership); datatypes of its literals "
+        "never reach a shape",
 }
 
 
